@@ -1,6 +1,6 @@
 (* C04 property theorems ONLY. *)
 From Coq Require Import List ZArith Reals Lra Lia.
-From RV Require Import Common.Num Common.RealNum C04.Model C04.Proofs C04.ProofsWH.
+From RV Require Import Common.Num Common.RealNum C04.Model C04.Proofs C04.ProofsWH C04.ProofsMerge.
 Import ListNotations.
 Open Scope R_scope.
 
@@ -78,6 +78,28 @@ Theorem C04_fg_step_and_com_drift_conserve_lz :
      (f * x + g * vx) * (fd * y + gd * vy) - (f * y + g * vy) * (fd * x + gd * vx) = x * vy - y * vx) /\
   (forall dt x y vx vy, (x + dt * vx) * vy - (y + dt * vy) * vx = x * vy - y * vx).
 Proof. exact (conj fg_conserves_lz com_drift_conserves_lz). Qed.
+Print Assumptions C04_fg_step_and_com_drift_conserve_lz.
+
+(* "... and, for mass and momentum, across merging collisions": C13's model of reb_collision_resolve_merge followed by
+   the removal the collision loop performs (bit-exact with the library there) leaves C04's total mass and total linear
+   momentum unchanged, and the centre-of-mass diagnostic evaluated AFTER the merger satisfies the defining equations
+   of the centre of mass of the set BEFORE it; for every array, pair, removal discipline and N_active *)
+Theorem C04_merge_conserves_mass_momentum_com :
+  forall (flag : M13.particle R -> M13.particle R) t cb ps p1 p2 a b keep nact,
+  M13.zth ps p1 = Some a -> M13.zth ps p2 = Some b -> p1 <> p2 ->
+  M13.plc a <> t -> M13.plc b <> t -> M13.pm a + M13.pm b <> 0 ->
+  exists ps' ps'' nact',
+    fst (M13.merge RNum t cb ps p1 p2) = ps' /\
+    M13.remove_particle flag false keep nact ps' (C13.Resolve.gone_ix p1 p2) = (ps'', nact', true) /\
+    S (length ps'') = length ps /\
+    Sm pm (map to04 ps'') = Sm pm (map to04 ps) /\
+    Sm Px (map to04 ps'') = Sm Px (map to04 ps) /\
+    Sm Py (map to04 ps'') = Sm Py (map to04 ps) /\
+    Sm Pz (map to04 ps'') = Sm Pz (map to04 ps) /\
+    (Forall (fun p => 0 < pm p) (map to04 ps'') ->
+       com_inv (com_range RNum (map to04 ps'')) (map to04 ps)).
+Proof. exact merge_keeps_com_and_momentum. Qed.
+Print Assumptions C04_merge_conserves_mass_momentum_com.
 
 (* non-vacuity *)
 Example C04_hypotheses_inhabited :
